@@ -1,4 +1,11 @@
 import PqlModel.Props.C05
+import PqlModel.Props.C02Split
 #print axioms Pql.C05.C05_ends_with_semicolon
 #print axioms Pql.C05.C05_subqueryName_injective
 #print axioms Pql.C05.C05_chain_names_by_index
+#print axioms Pql.C05.C05_names_by_index
+#print axioms Pql.C05.C05_generated_names_distinct
+#print axioms Pql.C05.C05_block_structure
+#print axioms Pql.C05.C05_chain_reads_previous
+#print axioms Pql.C05.C05_length_grows_ops
+#print axioms Pql.C05.C05_length_grows
